@@ -111,3 +111,320 @@ Proof. intros. unfold outstanding, push. simpl. rewrite gsum_app. lia. Qed.
 Lemma out_pop : forall s g r q k, gbq s = g :: r ->
   outstanding q k (pop s) = outstanding q k s - outg q k g.
 Proof. intros. unfold outstanding, pop. simpl. rewrite H. simpl. lia. Qed.
+
+(* ---------------- the transitions of [step], classified *)
+Inductive pmove (s : state) (b : block) : phase -> Prop :=
+| PM_wait : (bph b = Idle /\ owner_ok s (bpar b) = true \/ bph b = WaitAvail) ->
+            (bclaim b = false \/ bph b = WaitAvail) ->
+            lge (nkeys s) (pool (bpar b) s) (bdeb b) = false -> pmove s b WaitAvail
+| PM_refuse : bph b = Idle -> bclaim b = true ->
+            lge (nkeys s) (pool (bpar b) s) (bdeb b) = false -> pmove s b Gone
+| PM_abort : bph b = WaitAvail \/ bph b = Returning -> pmove s b Gone
+| PM_hold : bph b = Filling -> pmove s b Holding.
+
+Inductive trans (s : state) : state -> Prop :=
+| T_none : trans s s
+| T_new : forall q d cl, (q < length (pools s))%nat -> (length d <= nkeys s)%nat ->
+    lle (nkeys s) [] d = true -> limit_ok s q d = true ->
+    trans s (mkS (nkeys s) (cap s) (pools s ++ [[]]) (ins s ++ [[]])
+                 (blocks s ++ [mkB q d cl Idle false]) (gbq s))
+| T_ph : forall i b p, blk s i = Some b -> pmove s b p -> trans s (setph i p s)
+| T_take : forall i b, blk s i = Some b ->
+    (bph b = Idle /\ owner_ok s (bpar b) = true \/ bph b = WaitAvail /\ bwok b = true) ->
+    lge (nkeys s) (pool (bpar b) s) (bdeb b) = true ->
+    trans s (chpool (bpar b) (lneg (bdeb b)) (setph i Taking s))
+| T_fill : forall i b, blk s i = Some b -> bph b = Taking ->
+    trans s (chins (S i) (bdeb b) (chpool (S i) (bdeb b) (setph i Filling s)))
+| T_empty : forall i b, blk s i = Some b -> bph b = Holding ->
+    trans s (chins (S i) (lneg (bdeb b)) (chpool (S i) (lneg (bdeb b)) (setph i Emptying s)))
+| T_return : forall i b, blk s i = Some b -> bph b = Emptying ->
+    trans s (chpool (bpar b) (bdeb b) (setph i Returning s))
+| T_giveback : forall i b h, blk s i = Some b ->
+    ((bph b = Taking \/ bph b = Filling) /\ h = pool (S i) s \/
+     bph b = Holding /\ h = bdeb b \/ bph b = Emptying /\ h = []) ->
+    trans s (push [GbOwn i h; GbPar (bpar b) (bdeb b)] (setph i Gone s))
+| T_gbown : forall i h r, gbq s = GbOwn i h :: r ->
+    trans s (chins (S i) (lneg h) (chpool (S i) (lneg h) (pop s)))
+| T_gbpar : forall q d r, gbq s = GbPar q d :: r -> trans s (chpool q d (pop s))
+| T_adj : forall dl, cap s = None -> (forall k, 0 <= get k (pool 0 s) + get k dl) ->
+    trans s (chins 0 dl (chpool 0 dl s))
+| T_set : forall v, cap s = None -> (forall k, 0 <= get k v) ->
+    trans s (chins 0 (lsub v (pool 0 s)) (setpool 0 v s)).
+
+Lemma step_trans : forall s o,
+  (forall k, 0 <= get k (pool 0 s)) -> trans s (fst (step s o)).
+Proof.
+  intros s o NN. destruct o; simpl.
+  - (* New *)
+    destruct ((q <? length (pools s))%nat && (length d <=? nkeys s)%nat) eqn:G; simpl; [|constructor].
+    apply andb_prop in G. destruct G as [G1 G2]. apply Nat.ltb_lt in G1. apply Nat.leb_le in G2.
+    destruct (lle (nkeys s) [] d && limit_ok s q d) eqn:A; simpl; [|constructor].
+    apply andb_prop in A. destruct A. apply T_new; auto.
+  - (* Step *)
+    fold (blk s i). destruct (blk s i) as [b|] eqn:B; [|constructor].
+    destruct (bph b) eqn:P.
+    + destruct (owner_ok s (bpar b)) eqn:O; [|constructor]. unfold try_enter, take.
+      destruct (lge (nkeys s) (pool (bpar b) s) (bdeb b)) eqn:L; simpl.
+      * eapply T_take; eauto.
+      * destruct (bclaim b) eqn:C; simpl; eapply T_ph; eauto.
+        -- apply PM_refuse; auto.
+        -- apply PM_wait; auto.
+    + destruct (bwok b) eqn:W; [|constructor]. unfold try_enter, take.
+      destruct (lge (nkeys s) (pool (bpar b) s) (bdeb b)) eqn:L; simpl.
+      * eapply T_take; eauto.
+      * eapply T_ph; eauto. apply PM_wait; auto.
+    + simpl. eapply T_fill; eauto.
+    + simpl. eapply T_ph; eauto. apply PM_hold; auto.
+    + simpl. eapply T_empty; eauto.
+    + simpl. eapply T_return; eauto.
+    + simpl. eapply T_ph; eauto. apply PM_abort; auto.
+    + constructor.
+  - (* Signal *)
+    fold (blk s i). destruct (blk s i) as [b|] eqn:B; [|constructor].
+    destruct (bph b) eqn:P; simpl; try apply T_none;
+      try (eapply T_ph; eauto; apply PM_abort; auto; fail);
+      try (eapply T_giveback; eauto; tauto).
+    eapply T_empty; eauto.
+  - (* Close *)
+    fold (blk s i). destruct (blk s i) as [b|] eqn:B; [|constructor].
+    destruct (bph b) eqn:P; simpl; try apply T_none;
+      try (eapply T_ph; eauto; apply PM_abort; auto; fail);
+      try (eapply T_giveback; eauto; tauto).
+  - (* RunGb *)
+    destruct (gbq s) as [|[i h|q d] r] eqn:G; simpl.
+    + constructor.
+    + eapply T_gbown; eauto.
+    + eapply T_gbpar; eauto.
+  - (* Increase *)
+    destruct (is_none (cap s) && (length d <=? nkeys s)%nat) eqn:G; simpl; [|constructor].
+    apply andb_prop in G. destruct G as [G1 G2]. apply Nat.leb_le in G2.
+    destruct (lle (nkeys s) [] d) eqn:A; simpl; [|constructor].
+    apply T_adj.
+    + destruct (cap s); auto; discriminate.
+    + intros k. destruct (Nat.lt_ge_cases k (nkeys s)).
+      * rewrite lle_spec in A. specialize (A k H). rewrite get_nil in A. specialize (NN k). lia.
+      * rewrite (get_beyond d) by lia. specialize (NN k). lia.
+  - (* Decrease *)
+    destruct (is_none (cap s) && (length d <=? nkeys s)%nat) eqn:G; simpl; [|constructor].
+    apply andb_prop in G. destruct G as [G1 G2]. apply Nat.leb_le in G2.
+    destruct (lle (nkeys s) [] d && lle (nkeys s) [] (lsub (pool 0 s) d)) eqn:A; simpl; [|constructor].
+    apply andb_prop in A. destruct A as [A1 A2].
+    apply T_adj.
+    + destruct (cap s); auto; discriminate.
+    + intros k. rewrite get_lneg. destruct (Nat.lt_ge_cases k (nkeys s)).
+      * rewrite lle_spec in A2. specialize (A2 k H). rewrite get_nil, get_lsub in A2. lia.
+      * rewrite (get_beyond d) by lia. specialize (NN k). lia.
+  - (* SetLv *)
+    destruct (is_none (cap s)) eqn:G; simpl; [|constructor].
+    destruct (nonneg_opts m) eqn:A; simpl; [|constructor].
+    apply T_set.
+    + destruct (cap s); auto; discriminate.
+    + intros k. rewrite get_lset. destruct (k <? nkeys s)%nat; [|lia].
+      destruct (nth k m None) as [v|] eqn:E; [|apply NN].
+      unfold nonneg_opts in A. rewrite forallb_forall in A.
+      assert (I : In (Some v) m).
+      { rewrite <- E. apply nth_In. destruct (Nat.lt_ge_cases k (length m)); auto.
+        rewrite nth_overflow in E by auto. discriminate. }
+      specialize (A _ I). simpl in A. apply Z.leb_le in A. auto.
+Qed.
+
+(* ---------------- well-formedness *)
+Definition wf_block (s : state) (i : nat) (b : block) : Prop :=
+  (bpar b <= i)%nat /\ (length (bdeb b) <= nkeys s)%nat /\ (forall k, 0 <= get k (bdeb b)).
+Definition wf_gb (s : state) (g : gb) : Prop :=
+  match g with
+  | GbPar q d => (q < length (pools s))%nat /\ (forall k, 0 <= get k d)
+  | GbOwn i h => (i < length (blocks s))%nat
+  end.
+Definition WF (s : state) : Prop :=
+  length (pools s) = S (length (blocks s)) /\ length (ins s) = length (pools s) /\
+  (forall i b, blk s i = Some b -> wf_block s i b) /\ Forall (wf_gb s) (gbq s).
+
+Lemma blk_lt : forall s i b, blk s i = Some b -> (i < length (blocks s))%nat.
+Proof. intros. apply nth_error_Some. unfold blk in H. congruence. Qed.
+
+Lemma wf_gb_frame : forall s s' g,
+  length (pools s') = length (pools s) -> length (blocks s') = length (blocks s) ->
+  wf_gb s g -> wf_gb s' g.
+Proof. intros. destruct g; simpl in *; rewrite ?H, ?H0; auto. Qed.
+
+Lemma WF_setph : forall s i p, WF s -> WF (setph i p s).
+Proof.
+  intros s i p (L1 & L2 & B & G). unfold WF. simpl. rewrite updn_length.
+  split; auto. split; auto. split.
+  - intros j b' Hb. rewrite blk_setph in Hb.
+    assert (X : exists b, blk s j = Some b /\ bpar b' = bpar b /\ bdeb b' = bdeb b).
+    { destruct (j =? i)%nat; [|eauto].
+      destruct (blk s j) as [b|] eqn:E; simpl in Hb; inversion Hb; subst. eexists; simpl; eauto. }
+    destruct X as (b & E & P1 & P2). destruct (B j b E) as (W1 & W2 & W3).
+    unfold wf_block. simpl. rewrite P1, P2. auto.
+  - eapply Forall_impl; [|exact G]. intros g. apply wf_gb_frame; simpl; rewrite ?updn_length; auto.
+Qed.
+
+Lemma WF_setpool : forall s q v, WF s -> WF (setpool q v s).
+Proof.
+  intros s q v (L1 & L2 & B & G). unfold WF. simpl. rewrite updn_length, map_length.
+  split; auto. split; auto. split.
+  - intros j b' Hb. rewrite blk_setpool in Hb.
+    destruct (blk s j) as [b|] eqn:E; simpl in Hb; inversion Hb; subst.
+    destruct (B j b E) as (W1 & W2 & W3). unfold wf_block.
+    rewrite bpar_mark, bdeb_mark. simpl. auto.
+  - eapply Forall_impl; [|exact G]. intros g.
+    apply wf_gb_frame; simpl; rewrite ?updn_length, ?map_length; auto.
+Qed.
+
+Lemma WF_chins : forall s q d, WF s -> WF (chins q d s).
+Proof.
+  intros s q d (L1 & L2 & B & G). unfold WF. simpl. rewrite updn_length. auto.
+Qed.
+
+Lemma WF_pop : forall s, WF s -> WF (pop s).
+Proof.
+  intros s (L1 & L2 & B & G). unfold WF. simpl. split; auto. split; auto. split; auto.
+  destruct (gbq s); simpl; auto. inversion G; auto.
+Qed.
+
+Lemma WF_push : forall s gs, WF s -> Forall (wf_gb s) gs -> WF (push gs s).
+Proof.
+  intros s gs (L1 & L2 & B & G) H. unfold WF. simpl. split; auto. split; auto. split; auto.
+  apply Forall_app. auto.
+Qed.
+
+Lemma WF_trans : forall s s', WF s -> trans s s' -> WF s'.
+Proof.
+  intros s s' W T. destruct T; unfold chpool;
+    repeat first [apply WF_chins | apply WF_setpool | apply WF_pop]; auto;
+    try (apply WF_setph; auto; fail).
+  - (* new *)
+    destruct W as (L1 & L2 & B & G). unfold WF. simpl. rewrite !app_length. simpl.
+    split; [lia|]. split; [lia|]. split.
+    + intros j b' Hb. unfold blk in Hb. simpl in Hb. rewrite nth_error_snoc in Hb.
+      destruct (j <? length (blocks s))%nat eqn:E.
+      * apply (B j b' Hb).
+      * destruct (j =? length (blocks s))%nat eqn:E2; inversion Hb; subst.
+        apply Nat.eqb_eq in E2. subst j. unfold wf_block. simpl. split; [lia|]. split; auto.
+        intros k. destruct (Nat.lt_ge_cases k (nkeys s)).
+        -- rewrite lle_spec in H1. specialize (H1 k H3). rewrite get_nil in H1. auto.
+        -- rewrite get_beyond by lia. lia.
+    + eapply Forall_impl; [|exact G]. intros g Hg. destruct g; simpl in *; rewrite app_length; simpl; lia || (destruct Hg; split; auto; lia).
+  - (* giveback *)
+    apply WF_push; [apply WF_setph; auto|].
+    destruct W as (L1 & L2 & B & G). pose proof (blk_lt _ _ _ H) as Hi.
+    destruct (B i b H) as (W1 & W2 & W3).
+    repeat constructor; simpl; rewrite ?updn_length; auto; lia.
+Qed.
+
+(* ---------------- frame lemmas (definitional) *)
+Lemma pool_setph : forall s i p q, pool q (setph i p s) = pool q s. Proof. reflexivity. Qed.
+Lemma pool_chins : forall s q' d q, pool q (chins q' d s) = pool q s. Proof. reflexivity. Qed.
+Lemma pool_push : forall s g q, pool q (push g s) = pool q s. Proof. reflexivity. Qed.
+Lemma pool_pop : forall s q, pool q (pop s) = pool q s. Proof. reflexivity. Qed.
+Lemma insq_setph : forall s i p q, insq q (setph i p s) = insq q s. Proof. reflexivity. Qed.
+Lemma insq_setpool : forall s q' v q, insq q (setpool q' v s) = insq q s. Proof. reflexivity. Qed.
+Lemma insq_push : forall s g q, insq q (push g s) = insq q s. Proof. reflexivity. Qed.
+Lemma insq_pop : forall s q, insq q (pop s) = insq q s. Proof. reflexivity. Qed.
+Lemma out_chins : forall s q' d q k, outstanding q k (chins q' d s) = outstanding q k s.
+Proof. reflexivity. Qed.
+Lemma len_pools_setph : forall s i p, length (pools (setph i p s)) = length (pools s).
+Proof. reflexivity. Qed.
+Lemma len_pools_setpool : forall s q v, length (pools (setpool q v s)) = length (pools s).
+Proof. intros. simpl. apply updn_length. Qed.
+Lemma len_pools_pop : forall s, length (pools (pop s)) = length (pools s). Proof. reflexivity. Qed.
+Lemma len_ins_setph : forall s i p, length (ins (setph i p s)) = length (ins s).
+Proof. reflexivity. Qed.
+Lemma len_ins_setpool : forall s q v, length (ins (setpool q v s)) = length (ins s).
+Proof. reflexivity. Qed.
+Lemma len_ins_pop : forall s, length (ins (pop s)) = length (ins s). Proof. reflexivity. Qed.
+
+#[local] Hint Rewrite pool_setph pool_chins pool_push pool_pop insq_setph insq_setpool insq_push insq_pop
+  out_chins out_setpool out_push len_pools_setph len_pools_setpool len_pools_pop
+  len_ins_setph len_ins_setpool len_ins_pop : bp.
+
+Definition CONS (s : state) : Prop :=
+  forall q k, get k (pool q s) = get k (insq q s) - outstanding q k s.
+Definition NN0 (s : state) : Prop := forall k, 0 <= get k (pool 0 s).
+
+Ltac side := autorewrite with bp; lia.
+
+Lemma held_outb_set : forall q k p b,
+  outb q k (set_ph p b) = if (bpar b =? q)%nat && held p then get k (bdeb b) else 0.
+Proof. reflexivity. Qed.
+
+Lemma CONS_trans : forall s s', WF s -> CONS s -> trans s s' -> CONS s'.
+Proof.
+  intros s s' (L1 & L2 & B & G) C T.
+  destruct T; intros q0 k; specialize (C q0 k); auto;
+    try (pose proof (blk_lt _ _ _ H) as Hi; destruct (B _ _ H) as (W1 & W2 & W3)).
+  - (* new *)
+    unfold pool, insq, outstanding in *. simpl. rewrite osum_app. simpl.
+    destruct (Nat.lt_ge_cases q0 (length (pools s))).
+    + rewrite !app_nth1 by lia. unfold outb. simpl. rewrite andb_false_r. lia.
+    + rewrite !nth_overflow in C by lia.
+      assert (E : forall A (l : list A) x d j, (length l <= j)%nat -> nth j (l ++ [x]) d = if (j =? length l)%nat then x else d).
+      { clear. intros. destruct (j =? length l)%nat eqn:E.
+        - apply Nat.eqb_eq in E. subst. rewrite app_nth2 by lia. rewrite Nat.sub_diag. reflexivity.
+        - apply Nat.eqb_neq in E. apply nth_overflow. rewrite app_length. simpl. lia. }
+      rewrite (E _ (pools s)), (E _ (ins s)) by lia. rewrite L2. unfold outb. simpl. rewrite andb_false_r.
+      destruct (q0 =? length (pools s))%nat; rewrite ?get_nil in *; lia.
+  - (* phase move *)
+    autorewrite with bp. rewrite (out_setph s i p b q0 k H), held_outb_set.
+    unfold outb. inversion H0; subst;
+      repeat match goal with H : _ \/ _ |- _ => destruct H | H : _ /\ _ |- _ => destruct H end;
+      match goal with H : bph b = _ |- _ => rewrite H end; simpl;
+      destruct (bpar b =? q0)%nat; simpl; lia.
+  - (* take *)
+    unfold chpool. rewrite pool_setpool by side. autorewrite with bp.
+    rewrite (out_setph s i Taking b q0 k H), held_outb_set. unfold outb.
+    assert (HP : held (bph b) = false) by (destruct H0 as [[P _] | [P _]]; rewrite P; reflexivity).
+    rewrite HP, andb_false_r. simpl. rewrite andb_true_r.
+    destruct (q0 =? bpar b)%nat eqn:E.
+    + apply Nat.eqb_eq in E. subst q0. rewrite Nat.eqb_refl, get_ladd, get_lneg. lia.
+    + rewrite Nat.eqb_sym, E. lia.
+  - (* fill *)
+    unfold chpool. rewrite pool_chins, pool_setpool by side.
+    rewrite insq_chins by side. autorewrite with bp.
+    rewrite (out_setph s i Filling b q0 k H), held_outb_set. unfold outb. rewrite H0. simpl.
+    destruct (q0 =? S i)%nat eqn:E; [apply Nat.eqb_eq in E; subst q0|];
+      rewrite ?get_ladd; destruct (bpar b =? _)%nat; simpl; lia.
+  - (* empty *)
+    unfold chpool. rewrite pool_chins, pool_setpool by side.
+    rewrite insq_chins by side. autorewrite with bp.
+    rewrite (out_setph s i Emptying b q0 k H), held_outb_set. unfold outb. rewrite H0. simpl.
+    destruct (q0 =? S i)%nat eqn:E; [apply Nat.eqb_eq in E; subst q0|];
+      rewrite ?get_ladd, ?get_lneg; destruct (bpar b =? _)%nat; simpl; lia.
+  - (* return *)
+    unfold chpool. rewrite pool_setpool by side. autorewrite with bp.
+    rewrite (out_setph s i Returning b q0 k H), held_outb_set. unfold outb. rewrite H0. simpl.
+    rewrite andb_false_r, andb_true_r.
+    destruct (q0 =? bpar b)%nat eqn:E.
+    + apply Nat.eqb_eq in E. subst q0. rewrite Nat.eqb_refl, get_ladd. lia.
+    + rewrite Nat.eqb_sym, E. lia.
+  - (* giveback *)
+    autorewrite with bp. rewrite (out_setph s i Gone b q0 k H), held_outb_set. unfold outb. simpl.
+    rewrite andb_false_r.
+    assert (HP : held (bph b) = true).
+    { destruct H0 as [[[P | P] _] | [[P _] | [P _]]]; rewrite P; reflexivity. }
+    rewrite HP, andb_true_r. destruct (bpar b =? q0)%nat; lia.
+  - (* run GbOwn *)
+    rewrite H in G. inversion G as [|g r' Hg Hr]; subst. simpl in Hg.
+    unfold chpool. rewrite pool_chins, pool_setpool by side.
+    rewrite insq_chins by side. autorewrite with bp.
+    rewrite (out_pop s _ _ q0 k H). simpl.
+    destruct (q0 =? S i)%nat eqn:E; [apply Nat.eqb_eq in E; subst q0|]; rewrite ?get_ladd, ?get_lneg; lia.
+  - (* run GbPar *)
+    rewrite H in G. inversion G as [|g r' Hg Hr]; subst. simpl in Hg. destruct Hg as [Hq Hd].
+    unfold chpool. rewrite pool_setpool by side. autorewrite with bp.
+    rewrite (out_pop s _ _ q0 k H). simpl.
+    destruct (q0 =? q)%nat eqn:E.
+    + apply Nat.eqb_eq in E. subst q0. rewrite Nat.eqb_refl, get_ladd. lia.
+    + rewrite Nat.eqb_sym, E. lia.
+  - (* increase / decrease *)
+    unfold chpool. rewrite pool_chins, pool_setpool by side.
+    rewrite insq_chins by side. autorewrite with bp.
+    destruct (q0 =? 0)%nat eqn:E; [apply Nat.eqb_eq in E; subst q0|]; rewrite ?get_ladd; lia.
+  - (* set *)
+    rewrite pool_chins, pool_setpool by side.
+    rewrite insq_chins by side. autorewrite with bp.
+    destruct (q0 =? 0)%nat eqn:E; rewrite ?get_ladd, ?get_lsub; try lia.
+    apply Nat.eqb_eq in E. subst q0. lia.
+Qed.
